@@ -47,6 +47,11 @@ func Parse(regex string) (*AST, error) {
 		return nil, m.errors
 	}
 
+	// The end-marker must not be used anywhere in the regular expression itself.
+	if containsChar(out.Result.Val.(Node), endMarker) {
+		return nil, fmt.Errorf("unsupported character %U in regular expression: %s", endMarker, regex)
+	}
+
 	// Concat a unique right end-marker to the regular expression root node.
 	// This is required for the construction of a DFA directly from a regular expression.
 	root := &Concat{
@@ -74,6 +79,33 @@ func Parse(regex string) (*AST, error) {
 	}
 
 	return a, nil
+}
+
+// containsChar determines whether or not a character appears in the abstract syntax tree.
+func containsChar(n Node, c rune) bool {
+	switch v := n.(type) {
+	case *Concat:
+		for _, e := range v.Exprs {
+			if containsChar(e, c) {
+				return true
+			}
+		}
+
+	case *Alt:
+		for _, e := range v.Exprs {
+			if containsChar(e, c) {
+				return true
+			}
+		}
+
+	case *Star:
+		return containsChar(v.Expr, c)
+
+	case *Char:
+		return v.Val == c
+	}
+
+	return false
 }
 
 // indexChars backfills Pos for all Char nodes in the abstract syntaxt tree from left to right.
